@@ -7,6 +7,7 @@ from ..idioms import enum_paths, is_none_test, only_raises, raises, stmt_of
 from ..lifecycle import (QUERY_METHODS, GuardAnalysis, MustWrite, config_attrs, coverage, empty_buffers,
                          fitted_state, get_attr_effects, model_classes)
 from ..model import AnalysisError, call_name, is_self_attr, short, walk_no_nested
+from ..cfg import CFG, header_exprs
 from .c15 import get_rng
 
 # Conditionally written attributes that were read by hand and are benign (rule L3a); one reason each.
@@ -20,12 +21,13 @@ L3A_TRIAGE = {
     ('copulas.multivariate.tree.RegularTree', 'u_matrix'): 'as Tree.u_matrix',
 }
 # np.empty buffers that are deliberately not filled completely (rule L4).
+# keyed by (function, ordinal of the np.empty allocation in the function): local names are not part of a key
 L4_TRIAGE = {
-    ('multivariate.tree.Tree.get_likelihood', 'new_uni_matrix'):
+    ('multivariate.tree.Tree.get_likelihood', 1):
         'sparse by design: the next level reads only the cells [L,R] / [R,L] of parent edges, which are the cells written',
 }
 L4_ENUMERATE_TRIAGE = {
-    ('multivariate.vine.VineCopula.fit', 'self.u_matrix'):
+    ('multivariate.vine.VineCopula.fit', 1):
         'enumerate(X) iterates the columns of the DataFrame whose shape[1] sized the second axis',
 }
 
@@ -44,6 +46,7 @@ def run(ctx, rep):
     rep.guarded('L6.l6', l6, ctx, rep)
     rep.guarded('L7.l7', l7, ctx, rep)
     rep.guarded('L8.l8', l8, ctx, rep)
+    rep.guarded('L9.l9', l9, ctx, rep)
 
 
 # --------------------------------------------------------------------- L1 check_fit dominance
@@ -344,14 +347,19 @@ def l3(ctx, rep):
 def l4(ctx, rep, only_functions=None, rule='L4.empty'):
     prog = ctx.prog
     rep.rule(rule, 'every np.empty buffer is completely written before it is read or returned')
-    bufs = empty_buffers(prog)
+    bufs = sorted(empty_buffers(prog), key=lambda b: (b[0].qualname, getattr(b[1], 'lineno', 0), getattr(b[1], 'col_offset', 0)))
     if only_functions is None:
         rep.floor(rule, 'np.empty allocations', len(bufs), 0)
+    ordinal = {}
     for fn, st, target, shape in bufs:
+        ordinal[fn.qualname] = ordinal.get(fn.qualname, 0) + 1
+        k_ = ordinal[fn.qualname]
         if only_functions is not None and fn.qualname not in only_functions:
             continue
         status, why = coverage(prog, fn, st, target, shape)
         tname = short(target) if target is not None else '?'
+        why = f'`{tname}`: {why}'
+        tname = f'buffer {k_}' if not (isinstance(target, ast.Attribute) and is_self_attr(target, fn.self_name)) else tname
         if status == 'uncovered' and isinstance(target, ast.Attribute) and is_self_attr(target, fn.self_name) and fn.cls is not None:
             # a buffer held on self may be filled by a private helper of the class (called after the allocation)
             from ..idioms import private_closure
@@ -362,10 +370,10 @@ def l4(ctx, rep, only_functions=None, rule='L4.empty'):
                 status, why = 'unknown', f'self.{target.attr} is filled by a helper ({len(fills)} element store(s)): its coverage is not derived'
         if status == 'covered':
             rep.ok(rule, fn, st, why, construct=f'{tname} = np.empty')
-        elif status == 'enumerate' and (fn.short, tname) in L4_ENUMERATE_TRIAGE:
-            rep.triaged(rule, fn, st, L4_ENUMERATE_TRIAGE[(fn.short, tname)], construct=f'{tname} = np.empty')
-        elif (fn.short, tname) in L4_TRIAGE and status == 'uncovered':
-            rep.triaged(rule, fn, st, L4_TRIAGE[(fn.short, tname)], construct=f'{tname} = np.empty')
+        elif status == 'enumerate' and (fn.short, k_) in L4_ENUMERATE_TRIAGE:
+            rep.triaged(rule, fn, st, L4_ENUMERATE_TRIAGE[(fn.short, k_)], construct=f'{tname} = np.empty')
+        elif (fn.short, k_) in L4_TRIAGE and status == 'uncovered':
+            rep.triaged(rule, fn, st, L4_TRIAGE[(fn.short, k_)], construct=f'{tname} = np.empty')
         elif status == 'unknown':
             rep.undecided(rule, fn, st, why, construct=f'{tname} = np.empty')
         else:
@@ -659,3 +667,55 @@ def l6(ctx, rep, rule='L6.clone'):
             rep.undecided(rule, w, w.node.name, 'store_args sets attributes under computed names: which ones is not derived', construct='store_args wrapper')
         else:
             rep.bad(rule, w, w.node.name, 'store_args no longer records both argument sets', construct='store_args wrapper')
+
+
+# ----------------------------------------------------------------------------- L9 the fitted flag is the last thing a fit writes
+def l9(ctx, rep):
+    """`self.fitted = True` must not be followed by another step of the fit: if that step raises (a singular table, an
+    unsupported column), the model is left half-written but no longer answers queries with NotFittedError."""
+    prog = ctx.prog
+    rep.rule('L9.last', 'in every fit, `self.fitted = True` is followed by no further state write and no call that can raise: a fit that fails leaves the model unfitted')
+    n = 0
+    for fn in sorted(prog.functions.values(), key=lambda f: f.qualname):
+        if fn.cls is None or fn.kind != 'method' or fn.name != 'fit' or not fn.self_name:
+            continue
+        sets = [s_ for s_ in walk_no_nested(fn.node) if isinstance(s_, ast.Assign) and any(is_self_attr(t, fn.self_name, 'fitted') for t in s_.targets)
+                and not (isinstance(s_.value, ast.Constant) and not s_.value.value)]
+        if not sets:
+            continue
+        cfg = CFG(fn.node)
+        for st in sets:
+            n += 1
+            start = cfg.node_of(st)
+            if start is None:
+                rep.undecided('L9.last', fn, st, 'the statement is not a node of the control-flow graph', construct=f'{fn.cls.name}.fit: after fitted = True')
+                continue
+            seen, todo, later = set(), list(cfg.successors(start, exceptional=False)), []
+            while todo:
+                x = todo.pop()
+                if x.id in seen or x is start:
+                    continue
+                seen.add(x.id)
+                if x.ast is not None:
+                    later.append(x.ast)
+                todo.extend(cfg.successors(x, exceptional=False))
+            offender = None
+            for a in later:
+                hdr = header_exprs(a) if isinstance(a, (ast.If, ast.For, ast.While, ast.With, ast.Try)) else [a]
+                for h in hdr:
+                    for x in ast.walk(h):
+                        if isinstance(x, ast.Attribute) and isinstance(x.ctx, ast.Store) and is_self_attr(x, fn.self_name) and x.attr != 'fitted':
+                            offender = offender or (x, f'writes self.{x.attr}')
+                        if isinstance(x, ast.Call):
+                            tg = [t for t in ctx.cg.targets(fn, x) if t.kind == 'proj']
+                            if tg:
+                                offender = offender or (x, f'calls {tg[0].fn.short}')
+                            elif isinstance(x.func, ast.Attribute) and is_self_attr(x.func.value, fn.self_name):
+                                pass
+            if offender:
+                rep.bad('L9.last', fn, st, f'{fn.short} sets fitted = True and then {offender[1]} (`{short(offender[0], 50)}`): if that step raises, the model claims to be fitted '
+                        'and queries no longer raise NotFittedError', construct=f'{fn.cls.name}.fit: after fitted = True')
+            else:
+                rep.ok('L9.last', fn, st, 'nothing that can fail follows the flag', construct=f'{fn.cls.name}.fit: after fitted = True')
+    if n == 0:
+        rep.undecided('L9.last', prog.method('copulas.multivariate.base.Multivariate', 'check_fit'), 'fit', 'no fit assigns self.fitted directly', construct='fitted flag')
